@@ -17,6 +17,8 @@ MUTATIONS = {
         ('reconnect', 'tonic/src/transport/channel/service/reconnect.rs', r'if let Some\(error\) = self\.error\.take\(\) \{\s*tracing::debug!\("error: \{\}", error\);', 'if let Some(error) = self.error.take() {\n            self.state = State::Idle;', 'handing out the parked error also drops the connection'),
     ],
     'C01': [
+        ('decode', 'tonic/src/codec/decode.rs', r'let len = self\.buf\.get_u32\(\) as usize;', 'let len = (self.buf.get_u32() as usize) & 0x00ff_ffff;', 'length prefix read modulo 2^24'),
+        ('encode', 'tonic/src/codec/encode.rs', r'buf\.reserve\(HEADER_SIZE\);\s*unsafe \{\s*buf\.advance_mut\(HEADER_SIZE\);\s*\}', 'buf.reserve(HEADER_SIZE);\n    unsafe {\n        buf.advance_mut(HEADER_SIZE - 1);\n    }', 'header slot one byte short'),
         ('encode', 'tonic/src/codec/encode.rs', r'buf\.put_u32\(len as u32\);', 'buf.put_u32((len / 256) as u32);', 'length prefix is not the payload length'),
         ('decode', 'tonic/src/codec/decode.rs', r'if self\.buf\.remaining\(\) < HEADER_SIZE \{', 'if self.buf.remaining() < HEADER_SIZE - 1 {', 'header read one byte early'),
         ('encode', 'tonic/src/codec/encode.rs', r'buf\.put_u8\(compression_encoding\.is_some\(\) as u8\);', 'buf.put_u8(compression_encoding.is_none() as u8);', 'compressed flag polarity'),
@@ -37,6 +39,8 @@ MUTATIONS = {
         ('clientglue', 'tonic/src/client/grpc.rs', r'if let Some\(trailers\) = body\.trailers\(\)\.await\? \{', 'if let Ok(Some(trailers)) = body.trailers().await {', 'error status in the trailers of a unary call ignored'),
     ],
     'C03': [
+        ('encode', 'tonic/src/codec/encode.rs', r'error: None,\s*role: Role::Server,', 'error: None,\n                role: Role::Client,', 'server bodies built in the client role: no trailers'),
+        ('serverglue', 'tonic/src/server/grpc.rs', r'\.insert\(http::header::CONTENT_TYPE, GRPC_CONTENT_TYPE\);', '.insert(http::header::CONTENT_TYPE, http::HeaderValue::from_static("application/json"));', 'response content-type'),
         ('encode', 'tonic/src/codec/encode.rs', r'Role::Client => None,', 'Role::Client => Some(Status::ok("").to_header_map()),', 'client body emits trailers'),
         ('encode', 'tonic/src/codec/encode.rs', r'if self\.is_end_stream \{\s*return None;\s*\}', '', 'trailers can be emitted twice'),
     ],
@@ -60,9 +64,15 @@ MUTATIONS = {
         ('decode', 'tonic/src/codec/decode.rs', r'(\n\s*)self\.buf\.reserve\(len\);', r'', 'n/a'),
     ],
     'C07': [
+        ('decode', 'tonic/src/codec/decode.rs', r'Err\(Status::internal\("Unexpected EOF decoding stream\."\)\)', 'Ok(None)', 'a truncated stream ends cleanly'),
+        ('decode', 'tonic/src/codec/decode.rs', r'f => \{\s*trace!\("unexpected compression flag"\);', 'f if f > 2 => {\n                    trace!("unexpected compression flag");', 'flag 2 is not refused (no arm: must be at least undecided)'),
+        ('decode', 'tonic/src/codec/decode.rs', r'self\.decompress_buf\.clear\(\);\n', '', 'stale decompressed bytes of the previous message are kept'),
+        ('decode', 'tonic/src/codec/decode.rs', r'if self\.buf\.remaining\(\) < len \|\| self\.buf\.len\(\) < len \{', 'if self.buf.remaining() + 1 < len || self.buf.len() + 1 < len {', 'a message is handed out one byte early'),
         ('decode', 'tonic/src/codec/decode.rs', r'self\.inner\.state = State::Error\(None\);\s*return Poll::Ready\(Some\(Err\(status\)\)\);\s*\}\s*\}\s*\n\s*match ready!', 'return Poll::Ready(Some(Err(status)));\n                }\n            }\n\n            match ready!', 'decode error does not enter the error state'),
     ],
     'C08': [
+        ('metadata', 'tonic/src/metadata/map.rs', r'self\.headers\.extend\(other\.headers\);', 'self.headers = other.headers;', 'merge drops the existing entries'),
+        ('metadata', 'tonic/src/metadata/encoding.rs', r'crate::util::base64::STANDARD_NO_PAD\.encode\(value\);', 'crate::util::base64::STANDARD_NO_PAD.encode(&b"x"[..]);', 'binary value replaced before encoding'),
         ('metadata', 'tonic/src/metadata/map.rs', r'HeaderName::from_static\("grpc-message-type"\),', 'HeaderName::from_static("grpc-message-typo"),', 'a reserved name misspelt in the table'),
         ('metadata', 'tonic/src/metadata/encoding.rs', r'key\.ends_with\("-bin"\)', 'key.ends_with("bin")', 'binary key suffix'),
     ],
